@@ -275,8 +275,9 @@ Proof.
   cbn [readSize]. destruct (want <=? 0) eqn:W.
   - exists h, false. replace (Z.to_nat want) with O by lia. cbn [firstn]. rewrite app_nil_r, len_nil.
     split; [reflexivity|]. split; [apply adv_by_refl; exact L0|lia].
-  - destruct (bRead ch disk h want) as [h1 d] eqn:B.
-    destruct (bRead_spec h h1 want d I ltac:(lia) B) as (S & A & Ld & Nd).
+  - destruct (bRead ch disk h (Z.min want RCHUNK)) as [h1 d] eqn:B.
+    destruct (bRead_spec h h1 (Z.min want RCHUNK) d I ltac:(unfold RCHUNK; lia) B) as (S & A & Ld0 & Nd).
+    assert (Ld : len d <= want) by lia.
     assert (I1 : Rinv h1) by (eapply adv_by_Rinv; eauto).
     destruct d as [|x d'].
     + assert (N : rem h = []) by (apply Nd; reflexivity).
